@@ -30,9 +30,12 @@ PROPERTIES = {
             "the harness' own oracle: all cuts of one element sequence (evalref/evalsame) give the same container",
         ],
         "assumptions": [
-            "element types int and std::string; map<int,string>; tuple<int,string,int>; positional formatters, "
+            "element types int and std::string; map<int,string>; tuple<int,string,int>; "
             "pair/range/vector<bool>/unordered containers and values read from files or the environment "
             "(cardinality ignored there) are outside the modelled fragment",
+            "positional formatters (`addFormatPos`) with the case formatters are modelled for vectors, arrays and "
+            "tuples and refused at definition time elsewhere; key/value formatters of maps and `addFormatPos(-1,…)` / "
+            "negative indices are outside",
             "the initial content of a set/multiset/priority queue/map is a well-formed container (the C++ type "
             "guarantees it)",
             "elements do not contain the list separator (they could not be written on a command line otherwise)",
@@ -56,13 +59,15 @@ PROPERTIES = {
 
 RULE = ("a case = one configuration line plus evaluations, each on a fresh destination and Handler; one evaluation = "
         "one eval/evalref/evalsame/cont line run on the real code and on the Lean model; distinct_nontrivial = distinct "
-        "(container kind, clear, sort, unique mode, outcome) tuples for configuration lines plus distinct (operation, "
+        "(container kind, clear, sort, unique mode, has position formatters, outcome) tuples for configuration lines "
+        "plus distinct (operation, "
         "result class, number of uses class, has empty element, free values class, content size class) tuples for "
         "evaluations")
 
 SEQ_KINDS = ["vec_int", "deque_int", "list_int", "fwdlist_int", "set_int", "multiset_int", "stack_int", "queue_int",
              "prioq_int"]
 SORTABLE = {"vec_int", "vec_str", "deque_int", "list_int", "fwdlist_int"}
+POS_SEQ = {"vec_int", "vec_str"}             # ContainerAdapter<...>::AllowsPositionFormat
 ITER = SORTABLE | {"set_int", "multiset_int"}
 ARR_N = [1, 2, 3, 4, 5, 6, 8]
 ARR_INT = ("carray_int", "stdarray_int")
@@ -114,7 +119,8 @@ def nontrivial_key(op, result):
     w = op.split(" ")
     r = (result or "").split(" ")
     if w[0] == "cont":
-        return ("cont", kvs(w, "kind").split(":")[0], kvs(w, "sort"), kvs(w, "unique"), kvs(w, "clear"), " ".join(r[:2]))
+        return ("cont", kvs(w, "kind").split(":")[0], kvs(w, "sort"), kvs(w, "unique"), kvs(w, "clear"),
+                bool(kvs(w, "fmtpos")), " ".join(r[:2]))
     uses = sum(1 for x in w[1:] if x.startswith("-"))
     free = sum(1 for x in w[1:] if not x.startswith("-"))
     empt = bool(re.search(r"[,;:/]{2}|[ =v][,;:/]|[,;:/]( |$)|''", op))
@@ -135,10 +141,11 @@ def kvs(words, key):
 
 class Conf:
     def __init__(self, kind, n=0, sep=None, pair=None, clear=0, sort=0, unique="none", multi=0, init=(), checks=(),
-                 fmt=None):
+                 fmt=None, fmtpos=()):
         self.kind, self.n, self.sep, self.pair = kind, n, sep, pair
         self.clear, self.sort, self.unique, self.multi = clear, sort, unique, multi
         self.init, self.checks, self.fmt = list(init), list(checks), fmt
+        self.fmtpos = list(fmtpos)          # [(idx, "upper"|"lower")] = the addFormatPos calls in order
 
     def line(self):
         k = self.kind + (":%d" % self.n if self.n else "")
@@ -153,6 +160,8 @@ class Conf:
         parts += ["check=" + c for c in self.checks]
         if self.fmt:
             parts.append("fmt=" + self.fmt)
+        if self.fmtpos:
+            parts.append("fmtpos=" + ",".join("%d:%s" % (i, f) for i, f in self.fmtpos))
         return " ".join(parts)
 
     def list_sep(self):
@@ -162,21 +171,23 @@ class Conf:
 
     def valid(self):
         k = self.kind
-        if k in SEQ_KINDS or k == "vec_str":
-            return not (self.sort and k not in SORTABLE) and not (self.unique != "none" and k not in ITER)
+        if k in SEQ_KINDS or k == "vec_str":        # addFormatPos: std::vector only (AllowsPositionFormat)
+            return (not (self.sort and k not in SORTABLE) and not (self.unique != "none" and k not in ITER)
+                    and not (self.fmtpos and k not in POS_SEQ))
         if k in ARR_KINDS:
-            return not self.clear
+            return not self.clear and all(i < self.n for i, _ in self.fmtpos)
         if k == "bitset":
-            return not self.sort and self.unique == "none"
+            return not self.sort and self.unique == "none" and not self.fmtpos
         if k == "tuple_int_str_int":
-            return not (self.clear or self.sort or self.unique != "none" or self.fmt)
+            return (not (self.clear or self.sort or self.unique != "none" or self.fmt)
+                    and all(i < 3 for i, _ in self.fmtpos))
         if k == "map_int_str":
             pair = self.pair if self.pair is not None else ","
             if len(pair) not in (1, 3) or ";" in pair:
                 return False
             if self.sep is not None and self.sep in pair:
                 return False
-            return not self.sort
+            return not self.sort and not self.fmtpos
         return False
 
 
@@ -195,8 +206,9 @@ def render_value(rng, elems, sep, noise):
     return sep.join(parts)
 
 
-def render_cut(rng, conf, uses, noise):
-    """uses: list of element lists -> argv words.  Forms: `-v W`, `-vW`, `--vals=W`, `--vals W`, free word."""
+def render_cut(rng, conf, uses, noise, free=0.6):
+    """uses: list of element lists -> argv words.  Forms: `-v W`, `-vW`, `--vals=W`, `--vals W`, free word
+    (with probability `free` for every use after the first while multi-value is on)."""
     sep = conf.list_sep()
     words = []
     for i, elems in enumerate(uses):
@@ -207,7 +219,7 @@ def render_cut(rng, conf, uses, noise):
         forms = ["-vW", "--vals=W"] if dash else ["-v W", "-v W", "-vW", "--vals=W", "--vals W"]
         if w == "":
             forms = ["-v W", "--vals=W"]
-        if i > 0 and conf.multi and not dash and w != "" and rng.random() < 0.6:
+        if i > 0 and conf.multi and not dash and w != "" and rng.random() < free:
             forms = ["W"]
         f = rng.choice(forms)
         ww = w if w != "" else "''"
@@ -242,7 +254,60 @@ INT_POOL = ["0", "1", "2", "3", "4", "5", "7", "9", "-1", "-3", "10", "42"]
 INT_EDGE = ["2147483647", "-2147483648", "007", "+5", "-0", "00", "+0"]
 INT_BAD = ["x", "5x", "2147483648", "-2147483649", "+", "1.5", "0x1", "4294967296", "99999999999999999999", "--1", "+-1",
            "1e3"]
-STR_POOL = ["a", "b", "ab", "B", "abc", "Zz", "a1", "0", "10", "9", "abcd", "A"]
+# mixed case: the upper/lower formatters make a visible difference, and unique-data meets formatting ("ab" / "AB" /
+# "Ab" / "aB" are the same value behind a case formatter)
+STR_POOL = ["a", "b", "ab", "B", "abc", "Zz", "a1", "0", "10", "9", "abcd", "A", "AB", "Ab", "aB", "Beta", "BETA", "beta",
+            "SeVeN"]
+TUP_STR = ["Beta", "SeVeN", "aB", "Ab", "q", "ZZ"]
+FMTS = ("upper", "lower")
+
+
+def other_fmt(f):
+    return "lower" if f == "upper" else "upper"
+
+
+def gen_fmtpos(rng, conf, force_valid=True, force=False):
+    """the addFormatPos calls of a configuration ([] = none): differing per position, positions beyond the initial
+    content / around N-1, sometimes the same position twice with different formatters; with force_valid=False also
+    on kinds that refuse them and with indices outside an array / tuple"""
+    k = conf.kind
+    if k == "tuple_int_str_int":
+        if not force and rng.random() >= 0.45:
+            return []
+        fp = list(rng.choice([
+            [(0, "lower"), (1, "upper"), (2, "lower")], [(0, "lower"), (1, "upper"), (2, "lower")],
+            [(0, "upper"), (1, "lower"), (2, "upper")], [(1, "upper")], [(1, "lower")], [(1, "upper")], [(0, "upper")],
+            [(2, "lower")], [(0, "upper"), (1, "lower")], [(1, "lower"), (2, "upper")], [(2, "upper"), (1, "lower")],
+            [(1, "upper"), (1, "lower")], [(1, "lower"), (0, "upper"), (1, "upper")]]))
+        if not force_valid and rng.random() < 0.3:
+            fp.insert(rng.randrange(len(fp) + 1), (rng.choice([3, 3, 4, 12]), rng.choice(FMTS)))
+        return fp
+    if k in POS_SEQ or k in ARR_KINDS:
+        strs = k == "vec_str" or k in ARR_STR
+        if not force and rng.random() >= (0.45 if strs else 0.08):
+            return []
+        if k in ARR_KINDS:
+            cand = sorted({0, conf.n - 1, max(0, conf.n - 2), conf.n // 2, rng.randrange(conf.n)})
+        else:
+            li = len(conf.init)
+            cand = sorted({0, 1, max(0, li - 1), li, li + 1, li + 2, li + rng.choice([3, 5, 9])})
+        shape = rng.random()
+        if shape < 0.3:                       # alternating over all candidate positions
+            f0 = rng.choice(FMTS)
+            fp = [(i, f0 if j % 2 == 0 else other_fmt(f0)) for j, i in enumerate(cand)]
+        elif shape < 0.5:                     # a single position
+            fp = [(rng.choice(cand), rng.choice(FMTS))]
+        else:
+            fp = [(i, rng.choice(FMTS)) for i in rng.sample(cand, rng.randint(1, min(4, len(cand))))]
+        if rng.random() < 0.25:               # the same position twice: applied in the order they were added
+            i, f = rng.choice(fp)
+            fp.insert(rng.randrange(len(fp) + 1), (i, other_fmt(f)))
+        if k in ARR_KINDS and not force_valid and rng.random() < 0.3:
+            fp.insert(rng.randrange(len(fp) + 1), (conf.n + rng.choice([0, 0, 1, 7]), rng.choice(FMTS)))
+        return fp
+    if not force_valid and rng.random() < 0.25:       # refused at definition time
+        return [(rng.choice([0, 0, 1, 5]), rng.choice(FMTS))]
+    return []
 
 
 def gen_elems(rng, conf, length):
@@ -261,7 +326,8 @@ def gen_elems(rng, conf, length):
             out.append(pair[1] + body + pair[2] if len(pair) == 3 else body)
         return out
     if k == "tuple_int_str_int":
-        return [rng.choice(INT_POOL) if i % 3 != 1 else rng.choice(STR_POOL) for i in range(length)]
+        pool = TUP_STR if conf.fmtpos and rng.random() < 0.7 else STR_POOL
+        return [rng.choice(INT_POOL) if i % 3 != 1 else rng.choice(pool) for i in range(length)]
     pool = INT_POOL if rng.random() < 0.8 else INT_POOL + INT_EDGE
     small = rng.random() < 0.5
     return [rng.choice(pool[:5] if small else pool) for _ in range(length)]
@@ -315,7 +381,7 @@ def random_conf(rng, kind=None, force_valid=True):
         elif kind in ARR_INT:
             c.init = [rng.choice(["0", "1", "2", "9"]) for _ in range(rng.choice([0, 0, c.n, max(0, c.n - 1)]))]
         elif kind in ARR_STR:
-            c.init = [rng.choice(["a", "b", "Zz", "9"]) for _ in range(rng.choice([0, 0, c.n, max(0, c.n - 1)]))]
+            c.init = [rng.choice(["a", "b", "Zz", "9", "aB"]) for _ in range(rng.choice([0, 0, c.n, max(0, c.n - 1)]))]
         else:
             c.init = [rng.choice(INT_POOL[:8]) for _ in range(rng.choice([0, 0, 1, 2, 4]))]
         # checks / formats
@@ -338,6 +404,7 @@ def random_conf(rng, kind=None, force_valid=True):
                 c.checks = [rng.choice(["maxlen:2", "minlen:2", "maxlen:3"])]
         elif rng.random() < 0.1:
             c.fmt = rng.choice(["upper", "lower"])
+        c.fmtpos = gen_fmtpos(rng, c, force_valid)
         if not force_valid or c.valid():
             return c
         if rng.random() < 0.5:                # repair the usual suspects instead of rolling everything again
@@ -396,6 +463,38 @@ def config_case(rng, cid):
     return Case(cid, lines)
 
 
+def posfmt_case(rng, cid):
+    """a destination with position formatters and ONE element sequence: the reference is the whole sequence as one
+    list in one use, then the same sequence cut into several uses and free values in all spelling forms.  The
+    formatter of an element is chosen by its place in the destination, never by its place in the list of one use."""
+    kind = rng.choice(["tuple_int_str_int"] * 5 + ["vec_str"] * 2 + ["carray_str", "stdarray_str", "stdarray_str"])
+    conf = random_conf(rng, kind=kind)
+    if not conf.fmtpos:
+        conf.fmtpos = gen_fmtpos(rng, conf, force=True)
+    conf.multi = int(rng.random() < 0.8)
+    if kind == "tuple_int_str_int":
+        conf.checks = [] if rng.random() < 0.85 else conf.checks
+        length = rng.choice([3, 3, 3, 3, 3, 3, 2, 4])
+    elif kind == "vec_str":
+        top = max(i for i, _ in conf.fmtpos) + 1 - (0 if conf.clear else len(conf.init))
+        length = max(1, min(8, rng.choice([top, top + 1, 3, 4, 5])))
+    else:
+        length = rng.choice([conf.n, conf.n, conf.n, max(1, conf.n - 1), conf.n + 1])
+    elems = gen_elems(rng, conf, length)
+    lines = [conf.line(), "evalref " + render_cut(rng, conf, [elems], False)]
+    cuts = [u for u in compositions(elems) if len(u) > 1]
+    if len(cuts) > 7:
+        cuts = rng.sample(cuts, 5) + [[[e] for e in elems]]
+    for uses in cuts:
+        lines.append("evalsame " + render_cut(rng, conf, uses, rng.random() < 0.25, free=rng.choice([0.0, 0.6, 1.0, 1.0])))
+    for _ in range(2):
+        uses = random_cut(rng, elems, allow_empty_use=(kind != "tuple_int_str_int" and rng.random() < 0.3))
+        lines.append("evalsame " + render_cut(rng, conf, uses, rng.random() < 0.5))
+    if conf.multi and len(elems) > 1:       # `-v Alpha Beta Gamma`
+        lines.append("evalsame -v " + " ".join(e if not e.startswith("-") else conf.list_sep() + e for e in elems))
+    return Case(cid, lines)
+
+
 def compositions(seq):
     """all ways of cutting seq into consecutive non-empty uses"""
     n = len(seq)
@@ -415,7 +514,8 @@ def compositions(seq):
 
 def exhaustive_cases(maxlen, alphabet):
     """every container kind x every valid (clear, sort, unique) x every element sequence over the alphabet up to
-    maxlen x every cut into uses (`-v a,b` per use), init content [2,1] resp. kind-specific"""
+    maxlen x every cut into uses (`-v a,b` per use), init content [2,1] resp. kind-specific; plus the position
+    formatter configurations of exhaustive_posfmt_cases"""
     cases = []
     kinds = [(k, 0) for k in SEQ_KINDS] + [("vec_str", 0), ("carray_int", 2), ("stdarray_int", 3), ("carray_str", 2),
                                              ("stdarray_str", 2), ("bitset", 3)]
@@ -440,6 +540,46 @@ def exhaustive_cases(maxlen, alphabet):
                     lines.append(("evalref " if first else "evalsame ") + words)
                     first = False
                 cases.append(Case("x%d" % cid, lines))
+    return cases + exhaustive_posfmt_cases(maxlen)
+
+
+def exhaustive_posfmt_cases(maxlen):
+    """position formatters, one configuration per kind that allows them: every valid (clear, sort, unique) x every
+    element sequence up to maxlen over a mixed-case alphabet x every cut into uses; tuples: every sequence up to
+    length 4 of the shape (int, string, int, int) x every cut, as repeated uses and as free values (multi-value)"""
+    cases = []
+    cid = 0
+    alphabet = ["a", "B", "ab"]
+    confs = []
+    for clear, sort, unique in itertools.product((0, 1), (0, 1), ("none", "drop", "error")):
+        confs.append(Conf("vec_str", clear=clear, sort=sort, unique=unique, init=["b", "A"],
+                          fmtpos=[(0, "lower"), (2, "upper"), (3, "lower")]))
+        if not clear:
+            for kind in ("carray_str", "stdarray_str"):
+                confs.append(Conf(kind, n=2, sort=sort, unique=unique, init=["b", "A"], fmtpos=[(0, "upper"), (1, "lower")]))
+    for conf in confs:
+        assert conf.valid()
+        for L in range(0, min(maxlen, 3) + 1):
+            for seq in itertools.product(alphabet, repeat=L):
+                cid += 1
+                lines = [conf.line()]
+                for j, uses in enumerate(compositions(list(seq))):
+                    words = " ".join("-v " + (",".join(u) if u else "''") for u in uses)
+                    lines.append(("evalsame " if j else "evalref ") + words)
+                cases.append(Case("xp%d" % cid, lines))
+    for multi in (0, 1):
+        conf = Conf("tuple_int_str_int", multi=multi, fmtpos=[(0, "lower"), (1, "upper"), (2, "lower")])
+        assert conf.valid()
+        pools = [["1", "2"], ["a", "B", "aB"], ["1", "2"], ["1", "2"]]
+        for L in range(1, 5):
+            for seq in itertools.product(*pools[:L]):
+                cid += 1
+                lines = [conf.line()]
+                for j, uses in enumerate(compositions(list(seq))):
+                    vals = [",".join(u) for u in uses]
+                    words = "-v " + " ".join(vals) if multi else " ".join("-v " + v for v in vals)
+                    lines.append(("evalsame " if j else "evalref ") + words)
+                cases.append(Case("xp%d" % cid, lines))
     return cases
 
 
@@ -468,17 +608,19 @@ def generate(prop, tier, seed, scale=1):
     if prop == "C04":
         n = (600 if tier == "quick" else 30000) * scale
         yield "capacity", [capacity_case(rng, "k%d" % i) for i in range(n)]
-        yield "exhaustive len<=3 over {0,1,2}", exhaustive_cases(3, ["0", "1", "2"])
+        yield "exhaustive len<=3 over {0,1,2} + position formatters over {a,B,ab}", exhaustive_cases(3, ["0", "1", "2"])
         return
     n = (2500 if tier == "quick" else 120000) * scale
     cases = []
     for i in range(n):
         if i % 12 == 0:
             cases.append(config_case(rng, "c%d" % i))
+        elif i % 6 == 3:
+            cases.append(posfmt_case(rng, "p%d" % i))
         else:
             cases.append(cuts_case(rng, "g%d" % i))
     yield "generated", cases
     if tier == "quick":
-        yield "exhaustive len<=3 over {0,1,2}", exhaustive_cases(3, ["0", "1", "2"])
+        yield "exhaustive len<=3 over {0,1,2} + position formatters over {a,B,ab}", exhaustive_cases(3, ["0", "1", "2"])
     else:
-        yield "exhaustive len<=4 over {0,1,2}", exhaustive_cases(4, ["0", "1", "2"])
+        yield "exhaustive len<=4 over {0,1,2} + position formatters over {a,B,ab}", exhaustive_cases(4, ["0", "1", "2"])
